@@ -3,6 +3,8 @@ package promise
 import (
 	"context"
 	"sync/atomic"
+
+	"github.com/aperturerobotics/util/verifhook"
 )
 
 // Promise is an asynchronous result to an operation.
@@ -44,9 +46,11 @@ func NewPromiseWithErr[T any](err error) *Promise[T] {
 //
 // Returns false if the result was already set.
 func (p *Promise[T]) SetResult(val T, err error) bool {
+	verifhook.Point("promise.set", p)
 	if p.isDone.Swap(true) {
 		return false
 	}
+	verifhook.Point("promise.set.mid", p)
 	p.result = &val
 	p.err = err
 	close(p.done)
